@@ -1198,6 +1198,62 @@ func ruleFM5(c *Ctx) *rule {
 	return r
 }
 
+// ---- FM6: the parser sees the file as it was read -----------------------------------------------------------------------------------
+
+func ruleFM6(c *Ctx) *rule {
+	r := &rule{ID: "FM6", Engine: "E3", Floor: 1,
+		Statement: "the text handed to parser.New in the CLI is the content returned by os.ReadFile, converted to a string and nothing else; a line scanner whose Err() is never consulted is a violation, any other pre-processing is beyond this rule",
+		Necessity: "--fmt writes back the tree that was parsed: text that is dropped or cut before parsing (a bufio.Scanner stops silently at a line longer than its buffer) is removed from the user's file"}
+	newP := c.fn("parser", "New")
+	n := 0
+	for _, site := range c.callersOf(newP) {
+		f := site.Parent()
+		if shortPkg(fnPkgPath(f)) == "parser" || len(site.Common().Args) == 0 {
+			continue
+		}
+		n++
+		key := fmt.Sprintf("%s parser.New#%d input", fname(f), n)
+		sl := c.newSlicer()
+		sl.depth = 1
+		sl.objFlow = true
+		res := sl.run(site.Common().Args[0])
+		if !res.hasCall("os.ReadFile") {
+			r.undecided(key, c.ipos(site), "the parsed text does not come from os.ReadFile")
+			continue
+		}
+		var other []string
+		scanner := false
+		for _, name := range res.callNames() {
+			switch {
+			case name == "os.ReadFile" || name == "builtin.len":
+			case strings.HasPrefix(name, "bufio.NewScanner") || strings.HasPrefix(name, "(*bufio.Scanner)"):
+				scanner = true
+			case strings.HasPrefix(name, modPath) || strings.HasPrefix(name, "("+modPath) || strings.HasPrefix(name, "(*"+modPath):
+			default:
+				other = append(other, name)
+			}
+		}
+		errChecked := false
+		for _, g := range closuresOf(f) {
+			if len(callsTo(g, "(*bufio.Scanner).Err")) > 0 {
+				errChecked = true
+			}
+		}
+		switch {
+		case scanner && !errChecked:
+			r.bad(key, c.ipos(site), "the file is re-assembled line by line with a bufio.Scanner whose Err() is never consulted: a line longer than the scanner's buffer ends the scan silently and everything after it is missing from what is parsed (and from what --fmt writes back)")
+		case scanner || len(other) > 0:
+			r.undecided(key, c.ipos(site), "the text is pre-processed ("+strings.Join(other, ", ")+") before it is parsed; whether that keeps every comment is beyond this rule")
+		default:
+			r.ok(key, c.ipos(site), "string(os.ReadFile(...)) unchanged")
+		}
+	}
+	if n == 0 {
+		r.undecided("module parser.New", "-", "parser.New is not called outside the parser package")
+	}
+	return r
+}
+
 func parseProperties() []*propertySpec {
 	return []*propertySpec{
 		{ID: "C08", Title: "Parsing any input terminates, deterministically, with a tree or located error",
@@ -1209,7 +1265,7 @@ func parseProperties() []*propertySpec {
 			Explanation: "FM1 proves by a may-be-empty analysis over the SSA form of every String() method of the node types the parser appends (Comment, Assign, Task) that no return path prints the empty string, and that Tree.Write prints every node once, in order; FM2 proves by edge dominance that a parsed comment becomes a docstring only under the guard that the very next token is the task keyword, is never carried over from another iteration, and that Task.String prints it before the keyword; FM3 proves by path enumeration that every way round the parse loop appends exactly one node.",
 			NotCovered:  []string{"preservation of the comment text itself and of order (value-level)", "comments inside task bodies (the lexer rejects them)"},
 			Assumptions: []string{"docstring = comment immediately followed by the task keyword (parser definition)"},
-			Rules:       []func(*Ctx) *rule{ruleFM1, ruleFM2, ruleFM3, ruleFM4, ruleFM5}},
+			Rules:       []func(*Ctx) *rule{ruleFM1, ruleFM2, ruleFM3, ruleFM4, ruleFM5, ruleFM6}},
 	}
 }
 
